@@ -311,6 +311,19 @@ func (c *c02) run(jc J2TCase) {
 			var err error
 			if api == "Do" {
 				out, err = cv.Do(context.Background(), c.root, in)
+			} else if api == "DoInto+prefix" {
+				// DoInto appends: bytes already in the caller's buffer must survive, whatever growth happens
+				prefix := []byte{0xAA, 0xBB, 0xCC, 0xDD, 0xEE}
+				buf := make([]byte, len(prefix), len(prefix)+cp)
+				copy(buf, prefix)
+				err = cv.DoInto(context.Background(), c.root, in, &buf)
+				if err == nil {
+					if len(buf) < len(prefix) || string(buf[:len(prefix)]) != string(prefix) {
+						r.St = "prefix-clobbered"
+						return
+					}
+					out = buf[len(prefix):]
+				}
 			} else {
 				buf := make([]byte, 0, cp)
 				err = cv.DoInto(context.Background(), c.root, in, &buf)
@@ -332,6 +345,8 @@ func (c *c02) run(jc J2TCase) {
 	for _, cp := range c.caps {
 		one("DoInto", cp)
 	}
+	one("DoInto+prefix", c.caps[len(c.caps)/2])
+	one("DoInto+prefix", 0)
 	tb := B(text)
 	c.out.Emit(map[string]interface{}{"ev": "J2T", "d": d, "s2i": jc.O.S2i, "nob64": jc.O.Nob64, "disallow": jc.O.Disallow,
 		"wreq": jc.O.Wreq, "wdef": jc.O.Wdef, "wopt": jc.O.Wopt, "optbm": jc.O.Optbm, "usedflt": jc.O.Usedflt,
